@@ -19,8 +19,24 @@ using namespace vp;
 
 static const long BOX[3][2] = {{0, 0}, {0, 2}, {1, 3}};
 
+// box #3 is wide and has bounds that neither float nor (for 64-bit integers) double can represent, next to the type's extremes
 template <class T>
-static std::vector<T> axis_alphabet(long lo, long hi, bool reduced)
+static T box_lo(size_t b)
+{
+    if (b < 3) return static_cast<T>(BOX[b][0]);
+    if constexpr (std::is_integral_v<T>) return sizeof(T) == 8 ? static_cast<T>(9007199254740993ll) : static_cast<T>(16777217);
+    else return static_cast<T>(-16777217.0);
+}
+template <class T>
+static T box_hi(size_t b)
+{
+    if (b < 3) return static_cast<T>(BOX[b][1]);
+    if constexpr (std::is_integral_v<T>) return static_cast<T>(std::numeric_limits<T>::max() - 2);
+    else return std::numeric_limits<T>::max() / 2;
+}
+
+template <class T>
+static std::vector<T> axis_alphabet(T lo, T hi, bool reduced)
 {
     std::vector<T> a;
     using L = std::numeric_limits<T>;
@@ -32,7 +48,7 @@ static std::vector<T> axis_alphabet(long lo, long hi, bool reduced)
             if (v >= (long double)L::min() && v <= (long double)L::max()) a.push_back(static_cast<T>(v));
     } else {
         const T inf = L::infinity();
-        T l = static_cast<T>(lo), h = static_cast<T>(hi);
+        T l = lo, h = hi;
         if (reduced) {
             a = {-inf, std::nextafter(l, -inf), l, static_cast<T>(-0.0), h, std::nextafter(h, inf), inf};
         } else {
@@ -59,14 +75,14 @@ static void clamp_identity(Report & R, bool thorough)
     using Id = cb::identity<cv::vector_d<T, N>>;
     using Cl = cb::clamp<Id>;
     const std::string key = std::string("clamp_identity:N") + std::to_string(N) + ":" + tname<T>::v;
-    std::vector<size_t> bi = {0, 1, 2};
+    std::vector<size_t> bi = {0, 1, 2, 3};
     for_each_product<N, size_t>(bi, [&](const std::array<size_t, N> & bsel) {
         typename Cl::configuration_t cfg;
         std::array<std::vector<T>, N> al;
         for (size_t k = 0; k < N; ++k) {
-            cfg.min[k] = static_cast<T>(BOX[bsel[k]][0]);
-            cfg.max[k] = static_cast<T>(BOX[bsel[k]][1]);
-            al[k] = axis_alphabet<T>(BOX[bsel[k]][0], BOX[bsel[k]][1], (N >= 3 && !thorough));
+            cfg.min[k] = box_lo<T>(bsel[k]);
+            cfg.max[k] = box_hi<T>(bsel[k]);
+            al[k] = axis_alphabet<T>(box_lo<T>(bsel[k]), box_hi<T>(bsel[k]), (N >= 3 && !thorough));
         }
         covfie::field<Cl> f(covfie::make_parameter_pack(std::move(cfg), std::monostate{}));
         covfie::field_view<Cl> v(f);
@@ -76,11 +92,11 @@ static void clamp_identity(Report & R, bool thorough)
             auto got = v.at(xc);
             ++R.evaluations;
             for (size_t k = 0; k < N; ++k) {
-                T ex = ref_clamp<T>(x[k], static_cast<T>(BOX[bsel[k]][0]), static_cast<T>(BOX[bsel[k]][1]));
+                T ex = ref_clamp<T>(x[k], box_lo<T>(bsel[k]), box_hi<T>(bsel[k]));
                 R.observe(fnv_of(got[k]));
                 if (!(got[k] == ex)) {
                     char buf[200];
-                    std::snprintf(buf, sizeof buf, "component %zu of the delegated coordinate is %.17Lg, clamp(%.17Lg,[%ld,%ld]) = %.17Lg", k, (long double)got[k], (long double)x[k], BOX[bsel[k]][0], BOX[bsel[k]][1], (long double)ex);
+                    std::snprintf(buf, sizeof buf, "component %zu of the delegated coordinate is %.17Lg, clamp(%.17Lg,[%.20Lg,%.20Lg]) = %.17Lg", k, (long double)got[k], (long double)x[k], (long double)box_lo<T>(bsel[k]), (long double)box_hi<T>(bsel[k]), (long double)ex);
                     R.viol(key, buf, key + " box" + vec_str(bsel, N) + " x" + vec_str(x, N));
                 }
             }
@@ -115,7 +131,7 @@ static void clamp_storage(Report & R, const char * arrname, bool thorough)
         for (size_t k = 0; k < N; ++k) {
             cfg.min[k] = static_cast<I>(BOX[bsel[k]][0]);
             cfg.max[k] = static_cast<I>(BOX[bsel[k]][1]);
-            al[k] = axis_alphabet<I>(BOX[bsel[k]][0], BOX[bsel[k]][1], (N >= 3 && !thorough));
+            al[k] = axis_alphabet<I>(static_cast<I>(BOX[bsel[k]][0]), static_cast<I>(BOX[bsel[k]][1]), (N >= 3 && !thorough));
         }
         covfie::field<Cl> f(covfie::make_parameter_pack(std::move(cfg), typename St::configuration_t(to_cov<size_t, N>(ext)), typename Arr::configuration_t{len}));
         // fill through the inner storage view: value encodes the coordinate
@@ -204,14 +220,14 @@ static void backup_probe(Report & R, bool thorough)
     using Pf = probe_fn<cv::vector_d<T, N>, cv::vector_d<O, M>>;
     using Bk = cb::backup<Pf>;
     const std::string key = std::string("backup:N") + std::to_string(N) + ":M" + std::to_string(M) + ":" + tname<T>::v;
-    std::vector<size_t> bi = {0, 1, 2};
+    std::vector<size_t> bi = {0, 1, 2, 3};
     for_each_product<N, size_t>(bi, [&](const std::array<size_t, N> & bsel) {
         typename Bk::configuration_t cfg;
         std::array<std::vector<T>, N> al;
         for (size_t k = 0; k < N; ++k) {
-            cfg.min[k] = static_cast<T>(BOX[bsel[k]][0]);
-            cfg.max[k] = static_cast<T>(BOX[bsel[k]][1]);
-            al[k] = axis_alphabet<T>(BOX[bsel[k]][0], BOX[bsel[k]][1], (N >= 3 && !thorough));
+            cfg.min[k] = box_lo<T>(bsel[k]);
+            cfg.max[k] = box_hi<T>(bsel[k]);
+            al[k] = axis_alphabet<T>(box_lo<T>(bsel[k]), box_hi<T>(bsel[k]), (N >= 3 && !thorough));
         }
         for (size_t j = 0; j < M; ++j) cfg.default_value[j] = static_cast<O>(-7.5 - double(j));
         const long salt = 1 + long(bsel[0]);
@@ -222,7 +238,7 @@ static void backup_probe(Report & R, bool thorough)
             bool inside = true;
             for (size_t k = 0; k < N; ++k) {
                 xc[k] = x[k];
-                if (x[k] < static_cast<T>(BOX[bsel[k]][0]) || x[k] > static_cast<T>(BOX[bsel[k]][1])) inside = false;
+                if (x[k] < box_lo<T>(bsel[k]) || x[k] > box_hi<T>(bsel[k])) inside = false;
             }
             const unsigned long before = g_fn_log.calls;
             auto got = v.at(xc);
